@@ -160,6 +160,9 @@ structure Snap where
   kd : Bool := false
   ks : Array KSLine := #[]
   kb : Array KBLine := #[]
+  /-- the non-overlap separation constraints in `cs` after a construction (`KN`/`KC` lines) -/
+  kn : Bool := false
+  kc : Array (Nat × Nat × Rat) := #[]
   deriving Inhabited
 
 def parsePath (ts : Array String) : Option (Nat × List PathPt) := do
@@ -195,6 +198,13 @@ def parseSnaps (c : Case) (nNodes nEdges : Nat) : Option (Array Snap) := do
     else if l[0]! == "KD" && out.size > 0 then
       let s := out.back!
       out := out.pop.push { s with kd := true }
+    else if l[0]! == "KN" && out.size > 0 then
+      let s := out.back!
+      out := out.pop.push { s with kn := true }
+    else if l[0]! == "KC" && l.size ≥ 4 && out.size > 0 then
+      let g ← num? l[3]!
+      let s := out.back!
+      out := out.pop.push { s with kc := s.kc.push (nat! l[1]!, nat! l[2]!, g) }
     else if l[0]! == "KS" && l.size ≥ 12 && out.size > 0 then
       let v ← nums? (l.extract 6 9)
       let s := out.back!
@@ -366,7 +376,8 @@ After every `TopologyConstraints` construction the harness dumps the constraints
   the move; nothing else may change.
 
 Comparisons whose outcome depends on a floating-point rounding (two compared quantities differ by
-less than 1e-6 without being equal in exact arithmetic) are not made (`cons.guarded`).
+less than 1e-6 without being equal in exact arithmetic; for the computed crossing point of a segment
+with the scan line also when they are equal) are not made (`cons.guarded`).
 A difference is a DIVERGE; failures later in the same history get the class prefix `cons-mismatch/`. -/
 namespace ConsTie
 open AdaptaVerif.Model.TopoCons
@@ -386,12 +397,17 @@ structure St where
   rewritesB : Nat := 0
   unchanged : Nat := 0
   scanChecked : Nat := 0
+  nonOverlap : Nat := 0
+  nonOverlapUndecided : Nat := 0
   mismatch : Option String := none
 
 def St.fail (t : St) (m : String) : St := if t.mismatch.isSome then t else { t with mismatch := some m }
 
 def tolQ : Rat := 1 / 1000000
 def near (a b : Rat) : Bool := a != b && Driver.C13.absQ (a - b) < tolQ
+/-- the same for a quantity the library computes with rounding (`forwardIntersection`): equality in exact arithmetic
+    does not survive (a segment ending exactly at a neighbour's centre gives `p < leftLimit` or not by the last bit) -/
+def nearI (a b : Rat) : Bool := Driver.C13.absQ (a - b) < tolQ
 def closeRel (a b : Rat) : Bool := Driver.C13.absQ (a - b) ≤ (Driver.C13.absQ a + Driver.C13.absQ b + 1) / 1000000000
 
 def tcNode (geom : Snap) (i : Nat) : Node :=
@@ -417,7 +433,7 @@ def pairDelicate (d : Nat) (n : Node) (pos : Rat) (others : List Node) (sg : Seg
   near (sg.s.pos c) pos || near (sg.e.pos c) pos || near (sg.s.pos c) (sg.e.pos c) ||
   (!sg.parallel d &&
     (let x := sg.inter d pos
-     near x (n.r.centre d) || others.any fun m => near x (m.r.centre d)))
+     nearI x (n.r.centre d) || others.any fun m => nearI x (m.r.centre d)))
 
 def showKeys (l : List (Nat × Nat × Nat × Bool)) : String :=
   " ".intercalate (l.map fun k => s!"e{k.1}.s{k.2.1}:ri{k.2.2.1}{if k.2.2.2 then "L" else "R"}")
@@ -454,10 +470,13 @@ def groupDiff (d : Nat) (nodes : List Node) (segs : List Seg) (ks : List KSLine)
     let r := eventDiff d nodes segs ks isOpen (beforeOf perm) n
     ((match acc.1 with | some m => some m | none => r.1), acc.2.1 + r.2.1, acc.2.2 + r.2.2)) (none, 0, 0)
 
-def checkGroups (t : St) (d : Nat) (nodes : List Node) (segs : List Seg) (ks : List KSLine) (isOpen : Bool) : St := Id.run do
+/-- tie groups of one event kind with the orders that explain the dumped StraightConstraints -/
+def checkGroups (t : St) (d : Nat) (nodes : List Node) (segs : List Seg) (ks : List KSLine) (isOpen : Bool) :
+    St × List (List Node × List (List Nat)) := Id.run do
   let key (n : Node) : Rat := if isOpen then n.r.lo (conj d) else n.r.hi (conj d)
   let mut t := t
   let mut seen : List Rat := []
+  let mut groups : List (List Node × List (List Nat)) := []
   for n in nodes do
     if seen.contains (key n) then continue
     seen := key n :: seen
@@ -466,18 +485,51 @@ def checkGroups (t : St) (d : Nat) (nodes : List Node) (segs : List Seg) (ks : L
     let stable := groupDiff d nodes segs ks isOpen grp ids
     t := { t with events := t.events + grp.length, straight := t.straight + stable.2.1, guarded := t.guarded + stable.2.2 }
     if grp.length > 1 then t := { t with tieGroups := t.tieGroups + 1 }
+    let cands := if grp.length ≤ 5 then perms ids else [ids, ids.reverse]
+    let ok := if grp.length == 1 then (if stable.1.isNone then [ids] else [])
+              else cands.filter fun pm => (groupDiff d nodes segs ks isOpen grp pm).1.isNone
+    groups := groups ++ [(grp, ok)]
     match stable.1 with
     | none => pure ()
     | some msg =>
-      if grp.length == 1 then t := t.fail msg
+      if !ok.isEmpty then t := { t with tieNonStable := t.tieNonStable + 1 }
+      else if grp.length == 1 then t := t.fail msg
       else if grp.length ≤ 5 then
-        if (perms ids).any fun pm => (groupDiff d nodes segs ks isOpen grp pm).1.isNone then
-          t := { t with tieNonStable := t.tieNonStable + 1 }
-        else t := t.fail (msg ++ s!" (no order of the {grp.length} nodes {ids} that share this scan position explains the constraints)")
-      else if (groupDiff d nodes segs ks isOpen grp ids.reverse).1.isNone then
-        t := { t with tieNonStable := t.tieNonStable + 1 }
+        t := t.fail (msg ++ s!" (no order of the {grp.length} nodes {ids} that share this scan position explains the constraints)")
       else t := { t with tieUndecided := t.tieUndecided + 1 }
-  return t
+  return (t, groups)
+
+/-- remove one occurrence of every element of `sub` from `l`; `none` if some element is missing -/
+def msub (l sub : List (Nat × Nat)) : Option (List (Nat × Nat)) :=
+  sub.foldl (fun acc x => acc.bind fun l => if l.contains x then some (l.erase x) else none) (some l)
+
+/-- is there one order per NodeClose tie group (among those that explain the StraightConstraints) such that the
+    non-overlap constraints of all NodeClose events are exactly the dumped ones? -/
+def nocSearch (d : Nat) (nodes : List Node) : List (List Node × List (List Nat)) → List (Nat × Nat) → Bool
+  | [], rest => rest.isEmpty
+  | (grp, oks) :: more, rest =>
+    oks.any fun pm =>
+      let made := grp.flatMap fun n => (nonOverlapAtClose d (beforeOf pm) nodes n).map fun c => (c.left.id, c.right.id)
+      match msub rest made with
+      | some rest' => nocSearch d nodes more rest'
+      | none => false
+
+def checkNonOverlap (t : St) (d : Nat) (nodes : List Node) (kc : List (Nat × Nat × Rat))
+    (groups : List (List Node × List (List Nat))) (stepNo : Nat) : St := Id.run do
+  if groups.any fun g => g.2.isEmpty then return t          -- the StraightConstraint tie already failed / is undecided
+  let budget := groups.foldl (fun acc g => acc * g.2.length) 1
+  if budget > 20000 then return { t with nonOverlapUndecided := t.nonOverlapUndecided + 1 }
+  let t := { t with nonOverlap := t.nonOverlap + kc.length }
+  -- gaps
+  let arr := nodes.toArray
+  match kc.find? (fun c => !closeRel c.2.2 (mkNOC d (arr.getD c.1 default) (arr.getD c.2.1 default)).gap) with
+  | some c => return t.fail s!"cons tie: TopologyConstraints constructor at step {stepNo} (axis {d}): non-overlap constraint x{c.1} + {showQ c.2.2} <= x{c.2.1}: the model's gap is {showQ (mkNOC d (arr.getD c.1 default) (arr.getD c.2.1 default)).gap}"
+  | none => pure ()
+  let pairs := kc.map fun c => (c.1, c.2.1)
+  if nocSearch d nodes groups pairs then return t
+  let stab (m n : Node) : Bool := m.id < n.id
+  let exp := (nonOverlapClosed d stab nodes).map fun c => (c.left.id, c.right.id)
+  return t.fail s!"cons tie: TopologyConstraints constructor at step {stepNo} (axis {d}): the scan created the non-overlap constraints (left,right) {pairs}, the model creates {exp} (in node order of equal-position NodeClose events; no admissible order gives the library's set)"
 
 def bendDiff (d e : Nat) (pts : List EPt) (kb : List KBLine) : Option String × Nat × Nat := Id.run do
   let c := conj d
@@ -514,9 +566,11 @@ def checkConstruct (t : St) (s : Snap) (cyc : Array Bool) (stepNo : Nat) : St :=
   let mut t := { t with constructs := t.constructs + 1,
                         parallelSegs := t.parallelSegs + segs.countP (·.parallel d) }
   let pre := t.mismatch.isSome
-  t := checkGroups t d nodes segs ks true
-  t := checkGroups t d nodes segs ks false
+  t := (checkGroups t d nodes segs ks true).1
+  let (t', closeGroups) := checkGroups t d nodes segs ks false
+  t := t'
   t := checkBends t s cyc
+  if s.kn then t := checkNonOverlap t d nodes s.kc.toList closeGroups stepNo
   if !pre then
     match t.mismatch with
     | some m => t := { t with mismatch := some s!"cons tie: TopologyConstraints constructor at step {stepNo}: {m}" }
@@ -565,7 +619,7 @@ def showScs (l : List SC) : String :=
 /-- some `createStraight` decision on the new segment(s) is within rounding -/
 def rewriteDelicate (d : Nat) (newSegs : List Seg) (cands : List SC) : Bool :=
   newSegs.any fun sg => near (sg.s.pos (conj d)) (sg.e.pos (conj d)) ||
-    cands.any fun c => !sg.parallel d && near (sg.inter d c.pos) (c.node.r.centre d)
+    cands.any fun c => !sg.parallel d && nearI (sg.inter d c.pos) (c.node.r.centre d)
 
 /-- a `solve()` step: rewrite tie for edge `e` -/
 def checkEdgeStep (t : St) (prev s : Snap) (e stepNo : Nat) : St := Id.run do
@@ -625,7 +679,8 @@ def St.stats (t : St) : List (String × Nat) :=
    ("cons.tie-groups.non-stable-order", t.tieNonStable), ("cons.tie-groups.undecided", t.tieUndecided),
    ("cons.hidden-by-own-endnode", t.blind), ("cons.parallel-segments", t.parallelSegs),
    ("cons.rewrite.straight-satisfy", t.rewritesS), ("cons.rewrite.bend-satisfy", t.rewritesB),
-   ("cons.rewrite.unchanged-edges", t.unchanged), ("cons.scan-vs-closed", t.scanChecked)]
+   ("cons.rewrite.unchanged-edges", t.unchanged), ("cons.scan-vs-closed", t.scanChecked),
+   ("cons.non-overlap-compared", t.nonOverlap), ("cons.non-overlap-undecided", t.nonOverlapUndecided)]
 
 end ConsTie
 
